@@ -97,3 +97,60 @@ Print Assumptions C15_exception_value_is_data.
 Theorem C15_class_inhabited : wf ex_prog /\ o3 (drive ex_prog false) = Ok (VList [VInt 7]).
 Proof. exact class_inhabited. Qed.
 Print Assumptions C15_class_inhabited.
+
+(* T8  re-entered functions.  [driveH] / [run_asyncioH] refine [drive] / [run_asyncio]: the token of
+   `with AsyncioMode():` lives in an attribute of an AsyncioMode *object* on a heap that every Task of the
+   loop shares (it is not copied with the context), and [fresh_inst] is the code's choice of object: a new
+   one per activation (decorators.py:114, 137), whatever function the activation belongs to.  For every
+   root and every program - in particular when one function is active several times at once: recursion,
+   a function called again by one of its callees, several activations in one yielded list - (a)(b) the
+   refined run IS the abstract run, so T1-T7 hold of it; (c)(d) running anything leaves every AsyncioMode
+   object that existed before untouched (so each __exit__ finds the token of its own __enter__, and a
+   suspended outer activation of the same function is not disturbed); (e) the flag after the await is
+   the flag before; (f) spelled out for f(n) = `if n == 0: <bottom> else: r = yield f.asynq(n-1); return [r]`
+   with any bottom (a value, a raise, any program) and any depth. *)
+Theorem C15_reentrant_mode_confined :
+  (forall a fl h, fst (run_asyncioH fresh_inst a fl h) = run_asyncio a fl) /\
+  (forall p fl h, fst (driveH fresh_inst p fl h) = drive p fl) /\
+  (forall a fl h, hext h (snd (run_asyncioH fresh_inst a fl h))) /\
+  (forall p fl h, hext h (snd (driveH fresh_inst p fl h))) /\
+  (forall a fl h, f3 (fst (run_asyncioH fresh_inst a fl h)) = fl) /\
+  (forall bottom n fl h, f3 (fst (run_asyncioH fresh_inst (ex_rec_root bottom n) fl h)) = fl).
+Proof. exact reentrant_mode_confined. Qed.
+Print Assumptions C15_reentrant_mode_confined.
+
+(* T9  the caller keeps running after `await root.asyncio(args)`.  Started with the flag off, for every
+   root, outcome and heap: (a) a plain synchronous call g(args) made afterwards runs g on the scheduler and
+   hands its own outcome to the continuation - no RuntimeError; (b) the same for any sequence of such
+   calls (what the correspondence runs).  (c) started with the flag on (the caller is itself inside
+   asyncio mode), the calls are still refused afterwards. *)
+Theorem C15_caller_continues :
+  (forall a h g k,
+      drive (Sync false g k) (f3 (fst (run_asyncioH fresh_inst a false h))) =
+      (let r2 := drive (k (fst (eval_leaf eval g))) false in
+       (o3 r2, f3 r2, EvSync SRan :: snd (eval_leaf eval g) ++ t3 r2))) /\
+  (forall a h ps,
+      let xs := run_probes ps (f3 (fst (run_asyncioH fresh_inst a false h))) in
+      map o3 xs = map (fun ap => fst (eval_leaf eval (snd ap))) ps /\
+      Forall (fun x => In (EvSync SRan) (t3 x)) xs) /\
+  (forall a h ps, Forall (fun ap => fst ap = false) ps ->
+      Forall (fun x => o3 x = Err E_RUNTIME /\ t3 x = [EvSync SRefused])
+             (run_probes ps (f3 (fst (run_asyncioH fresh_inst a true h))))).
+Proof. exact caller_continues. Qed.
+Print Assumptions C15_caller_continues.
+
+(* the re-entered class is inhabited, and the per-activation object is what T8 rests on: with ONE
+   AsyncioMode object per function ([per_function], not the code) the same recursive program of depth 2
+   leaves the flag on after the await - with a value and with an exception - while depth 0 does not *)
+Theorem C15_reentered_class_inhabited :
+  f3 (fst (run_asyncioH (per_function (fun _ => O)) (ex_rec_root (Ret (VInt 1)) 2) false heap0)) = true /\
+  f3 (fst (run_asyncioH (per_function (fun _ => O)) (ex_rec_root (Raise 7) 2) false heap0)) = true /\
+  f3 (fst (run_asyncioH (per_function (fun _ => O)) (ex_rec_root (Ret (VInt 1)) 0) false heap0)) = false /\
+  fst (run_asyncioH fresh_inst (ex_rec_root (Ret (VInt 1)) 2) false heap0)
+  = (Ok (VList [VList [VInt 1]]), false,
+     [EvBody 2 true; EvBody 1 true; EvBody 0 true; EvDone 0 (Ok (VInt 1)); EvDone 1 (Ok (VList [VInt 1]));
+      EvDone 2 (Ok (VList [VList [VInt 1]]))]) /\
+  o3 (fst (run_asyncioH fresh_inst (ex_rec_root (Raise 7) 3) false heap0)) = Err 7 /\
+  f3 (fst (run_asyncioH fresh_inst (ex_rec_root (Raise 7) 3) false heap0)) = false.
+Proof. exact ex_shared_instance_leaks. Qed.
+Print Assumptions C15_reentered_class_inhabited.
